@@ -239,6 +239,11 @@ def run(tier, seed, rng):
         if m is not None:
             want = (raw[start:start + (m.end() if incl else m.start())], start + m.end())
         got = (bytes.fromhex(dict(o['ok']['f'])['d']['x']), o['end']) if 'ok' in o else None
+        if got == want and want is not None and o.get('packed') != {'ok': raw[off:want[1]].hex()}:
+            # serializing right after this parse gives back exactly the bytes it consumed: the value and THIS parse's delimiter
+            # (possibly empty), not the delimiter some earlier parse of the class left behind
+            failures.append(dict(kind='oracle', sig='data-pack-regex-empty', what=f"pack() right after the parse gives {o.get('packed')}, the parse consumed {raw[off:want[1]].hex()}",
+                                 classes=[c for c in esrc.split('class ') if c.startswith(nm + '(')][0].join(['class ', '']), cls=nm, raw=raw.hex(), offset=off, observed=o))
         if got != want:
             failures.append(dict(kind='oracle', sig='data-unpack-regex-empty', what='a regex delimiter that can match the empty string: the value must end at the first match in the search window, the empty match at the end of the input included',
                                  classes=[c for c in esrc.split('class ') if c.startswith(nm + '(')][0].join(['class ', '']), cls=nm, raw=raw.hex(), offset=off,
